@@ -482,6 +482,9 @@ func genZone(rng *mrand.Rand, in input) *dohfake.Zone {
 	if rng.IntN(3) == 0 {
 		z.Order = 1 + rng.IntN(3)
 	}
+	// nor does the way the HTTP layer frames the response: every eighth universe is served without a Content-Length
+	// header (chunked transfer coding, what net/http does by itself for bodies over 2 KB or streamed ones)
+	z.Chunked = rng.IntN(8) == 0
 	return z
 }
 
@@ -632,7 +635,7 @@ func dumpZone(z *dohfake.Zone) []string {
 		}
 	}
 	sort.Strings(out)
-	return append(out, fmt.Sprintf("nx-unknown=%v compress=%v answer-order=%d", z.NXUnknown, z.Compress, z.Order))
+	return append(out, fmt.Sprintf("nx-unknown=%v compress=%v answer-order=%d chunked=%v", z.NXUnknown, z.Compress, z.Order, z.Chunked))
 }
 
 var rcodeErr = map[int]error{1: ech.ErrFormatError, 2: ech.ErrServerFailure, 3: ech.ErrNonExistentDomain, 4: ech.ErrNotImplemented, 5: ech.ErrQueryRefused}
@@ -689,6 +692,9 @@ func TestCheck(t *testing.T) {
 		}
 		if i < 2 || i == len(specials) {
 			r.Sample(c)
+		}
+		if z.Chunked {
+			r.Count("universes_served_without_content_length", 1)
 		}
 		srv := <-servers // exclusive use for this case
 		defer func() { servers <- srv }()
@@ -1166,6 +1172,7 @@ func TestCheck(t *testing.T) {
 	r.Floor("queries", int64(n)*2)
 	r.Floor("cases_with_resolver_history", int64(n)/6)
 	r.Floor("answers_with_cname_after_its_target", int64(n)/100)
+	r.Floor("universes_served_without_content_length", int64(n)/16)
 	r.Floor("alias_hops_followed", int64(n)/10)
 	r.Floor("loops_generated", int64(n)/100)
 	r.Floor("cname_cases", int64(n)/30)
